@@ -98,7 +98,7 @@ def make_converter(behaviour, base):
     with open(os.path.join(bindir, "mode"), "w") as f:
         f.write(behaviour)
     return LibreOfficeConverter(executable_path=exe)
-TARGETS = ("absent", "present", "missing_dirs", "resdir_present", "present_long")
+TARGETS = ("absent", "present", "missing_dirs", "resdir_present", "present_long", "present_binary", "present_crlf_copy")
 NAMES = {"write_rtf": ["out.rtf", "noext"], "write_docx": ["out.docx", "report"], "write_html": ["rep.html", "page.htm", "noext"],
          "write_pdf": ["out.pdf", "a.b.pdf"]}
 PAYLOAD = b"CONVERTED-BYTES-\x00\x01\xff"
@@ -175,6 +175,9 @@ def setup_case(case):
     if state in ("present", "resdir_present", "present_long"):
         with open(target, "wb") as f:
             f.write(b"OLD TARGET CONTENT" * (20000 if state == "present_long" else 1))      # longer than any new export
+    if state in ("present_binary", "present_crlf_copy"):
+        with open(target, "wb") as f:          # (present_crlf_copy is overwritten in check() once the document exists)
+            f.write(b"\xff\xfe\x00OLD \x80\x81 BINARY \xc3\x28 CONTENT\r\n")
     if state == "resdir_present":
         # what an earlier successful write_html to the same target left behind
         stem = Path(name).stem
@@ -241,10 +244,16 @@ def enumerate_cases(tier):
                     continue
                 for name in NAMES[export]:
                     yield {"export": export, "doc": 0, "fault": None, "stub": stub, "target": tgt, "name": name}
-    for tgt in ("absent", "present", "missing_dirs", "present_long"):
+    for tgt in ("absent", "present", "missing_dirs", "present_long", "present_binary", "present_crlf_copy"):
         for di in range(len(DOCS)):
             for name in NAMES["write_rtf"]:
                 yield {"export": "write_rtf", "doc": di, "fault": None, "stub": "ok", "target": tgt, "name": name}
+    # "~/..." targets given as str and as pathlib.Path (HOME points into the observed area)
+    for export in EXPORTS:
+        for tilde in ("str", "path"):
+            for tgt in ("absent", "missing_dirs"):
+                yield {"export": export, "doc": 0, "fault": None, "stub": "html_with_files" if export == "write_html" else "ok", "target": tgt,
+                       "name": NAMES[export][0], "tilde": tilde}
     # the same document exported before, changed in place (title text / orientation), exported again
     for export in EXPORTS:
         for di in range(len(DOCS)):
@@ -261,6 +270,8 @@ def _case(draw):
     stub = draw(st.sampled_from(STUBS)) if export != "write_rtf" else "ok"
     tgt = draw(st.sampled_from(TARGETS if export == "write_html" else TARGETS[:3] + TARGETS[4:]))
     case = {"export": export, "doc": di, "fault": fault, "stub": stub, "target": tgt, "name": draw(st.sampled_from(NAMES[export]))}
+    if draw(st.integers(0, 9)) < 2:
+        case["tilde"] = draw(st.sampled_from(["str", "path"]))
     if draw(st.integers(0, 9)) < 2:
         case["rewrite"] = draw(st.sampled_from(["rtf", "docx"]))
     return case
@@ -289,6 +300,21 @@ def check(case) -> Result:
     except Exception as e:
         res.harness_error = f"converter set-up failed: {type(e).__name__}: {e}"
         return res
+    if case["target"] == "present_crlf_copy":
+        # the target already holds this very document as saved by a tool that writes CRLF line ends
+        try:
+            with open(target, "wb") as f:
+                f.write(doc.rtf_encode().replace("\n", "\r\n").encode("utf-8"))
+        except Exception as e:
+            res.harness_error = f"document {di} does not encode: {e}"
+            return res
+    home_before = os.environ.get("HOME")
+    target_arg = target
+    if case.get("tilde"):
+        # the caller names the target relative to the home directory, as a str or as a pathlib.Path
+        os.environ["HOME"] = area
+        rel_home = "~/" + os.path.relpath(target, area)
+        target_arg = Path(rel_home) if case["tilde"] == "path" else rel_home
     if case.get("rewrite"):
         # history: the same document object was exported before (elsewhere), then changed in place
         try:
@@ -320,10 +346,15 @@ def check(case) -> Result:
     type(doc).rtf_encode = spy
     try:
         with contextlib.redirect_stdout(io.StringIO()):
-            outcome, fired, ncalls = run_with_fault(lambda: invoke(doc, export, target, stub), case["fault"])
+            outcome, fired, ncalls = run_with_fault(lambda: invoke(doc, export, target_arg, stub), case["fault"])
     finally:
         type(doc).rtf_encode = orig_encode
         tempfile.tempdir = old_tmp
+        if case.get("tilde"):
+            if home_before is None:
+                os.environ.pop("HOME", None)
+            else:
+                os.environ["HOME"] = home_before
     after_area = snapshot(area)
     after_tmp = snapshot(tmp)
     rel_target = os.path.relpath(target, area)
@@ -402,7 +433,7 @@ def check(case) -> Result:
     inside = bool(fired) and case["fault"] is not None and 1 < case["fault"] < ncalls + (0 if outcome[0] == "ok" else 10 ** 6)
     res.labels = ["export=" + export, "stub=" + case["stub"], "target=" + case["target"], "fault=" + ("none" if case["fault"] is None else "fired" if fired else "not_reached"),
                   "outcome=" + ("raised" if outcome[0] == "exc" else "returned"),
-                  "exc=" + (type(outcome[1]).__name__ if outcome[0] == "exc" else "-"), "re-export_after_change" if case.get("rewrite") else "first_export"]
+                  "exc=" + (type(outcome[1]).__name__ if outcome[0] == "exc" else "-"), "re-export_after_change" if case.get("rewrite") else "first_export", "home_relative_" + case["tilde"] if case.get("tilde") else "plain_path"]
     res.nontrivial = (fired and case["fault"] > 1) or case["stub"] not in ("ok", "real_ok") or case["target"] != "absent"
     shutil.rmtree(base, ignore_errors=True)
     return res
